@@ -11,10 +11,24 @@ def run(tier, seed, replay=None):
     n = 200 if tier == "quick" else 4000
     lines, wd = subfam.run_family(ck, binary, "listeners", n, seed, strict=True)
     shutil.rmtree(wd, ignore_errors=True)
-    ck.cov["listener_sequences_checked"] = sum(1 for ln in lines if '"final.listener"' in ln)
+    nseq = sum(1 for ln in lines if '"final.listener"' in ln)
+    for fam, cnt in (("faults", n), ("close", n), ("stall", 16 if tier == "quick" else 96)):
+        more, wd = subfam.run_family(ck, binary, fam, cnt, seed, strict=True)
+        shutil.rmtree(wd, ignore_errors=True)
+        nseq += sum(1 for ln in more if '"final.listener"' in ln)
+        if fam == "stall":
+            import json
+            qs = [sum(1 for e in sc if e["ev"] == "d.event") for sc in subfam.scenarios(more)]   # notifications forwarded to the stalled listener
+            ck.cov["stalled_listener_backlog_max"] = max(qs) if qs else 0
+            if not qs or max(qs) <= 64:
+                raise vlib.Infra("family stall did not build up a backlog of more than 64 notifications")
+    lines = lines + more
+    ck.cov["listener_sequences_checked"] = nseq
     ck.cov["rule"] = ("seeded random schedules with two listeners registered (and one cancelled) at random points between announcements and syncs; listeners never "
                       "read until the end of the run (stalled readers) while every sync step must still complete under the scheduler's watchdog; TLC validates that "
                       "each notification taken by the distributor is the oldest pending one of its publisher, and that each listener's received sequence "
-                      "(publisher, CID, count, error) equals what was forwarded while it was in the distributor's list, and that its channel was closed")
+                      "(publisher, CID, count, error) equals what was forwarded while it was in the distributor's list, and that its channel was closed; family 'faults' adds failing syncs (error notifications), family 'close' "
+                      "concurrent Close calls at random points (a sync aborted by Close still sends its notification before the channels are closed), family 'stall' "
+                      "one listener that does not read while about 90 advertisements of one publisher are announced and synced one after the other")
     ck.assumptions += ["notification order with explicit syncs overlapping announce-triggered ones is covered by C08's known findings"]
     return ck
